@@ -189,12 +189,14 @@ func maskQuoted(s string) string {
 	return string(b)
 }
 
-// parseArgs parses comma-separated arguments, handling quoted strings
+// parseArgs parses comma-separated arguments, handling quoted strings and the
+// commas that belong to a nested call or index (add(n, add(1, 2)))
 func parseArgs(argStr string) []string {
 	var args []string
 	var current strings.Builder
 	inQuote := false
 	quoteChar := rune(0)
+	depth := 0
 
 	for _, ch := range strings.TrimSpace(argStr) {
 		switch {
@@ -208,7 +210,13 @@ func parseArgs(argStr string) []string {
 			inQuote = false
 			quoteChar = 0
 			current.WriteRune(ch)
-		case ch == ',' && !inQuote:
+		case (ch == '(' || ch == '[') && !inQuote:
+			depth++
+			current.WriteRune(ch)
+		case (ch == ')' || ch == ']') && !inQuote && depth > 0:
+			depth--
+			current.WriteRune(ch)
+		case ch == ',' && !inQuote && depth == 0:
 			if current.Len() > 0 {
 				args = append(args, strings.TrimSpace(current.String()))
 				current.Reset()
@@ -306,7 +314,10 @@ func (v *Vue) evalFilter(ctx VueContext, seg pipeSegment, input any, isFirst, fr
 		args = append(args, input)
 	}
 	for _, argExpr := range seg.args {
-		argVal := v.resolveArgument(ctx, argExpr)
+		argVal, err := v.resolveArgument(ctx, argExpr)
+		if err != nil {
+			return nil, fmt.Errorf("%s(): %w", seg.name, err)
+		}
 		args = append(args, argVal)
 	}
 
@@ -340,42 +351,53 @@ func (v *Vue) exprEnv(ctx VueContext) map[string]any {
 	return env
 }
 
-// resolveArgument resolves a single argument (either a variable reference or literal)
-func (v *Vue) resolveArgument(ctx VueContext, arg string) any {
+// resolveArgument resolves a single argument: a literal, a variable reference,
+// or any other expression (a nested call, a unary minus, an operator expression)
+func (v *Vue) resolveArgument(ctx VueContext, arg string) (any, error) {
 	arg = strings.TrimSpace(arg)
 
 	// Check if it's a quoted string literal
-	if len(arg) >= 2 {
+	if len(arg) >= 2 && !strings.ContainsAny(arg[1:len(arg)-1], `'"`) {
 		if (arg[0] == '"' && arg[len(arg)-1] == '"') ||
 			(arg[0] == '\'' && arg[len(arg)-1] == '\'') {
-			return arg[1 : len(arg)-1]
+			return arg[1 : len(arg)-1], nil
 		}
 	}
 
 	// Try to parse as integer
 	if i, err := strconv.Atoi(arg); err == nil {
-		return i
+		return i, nil
 	}
 
 	// Try to parse as float
 	if f, err := strconv.ParseFloat(arg, 64); err == nil {
-		return f
+		return f, nil
 	}
 
 	// Try to parse as bool
 	// Only the literals true and false (ParseBool would also take t, f, T, F,
 	// 1, 0 and so turn a variable named t into a boolean).
 	if arg == "true" || arg == "false" {
-		return arg == "true"
+		return arg == "true", nil
 	}
 
 	// Try to resolve as variable
 	if val, ok := ctx.stack.Resolve(arg); ok {
-		return val
+		return val, nil
+	}
+
+	// Anything that is not a plain variable path is an expression of its own:
+	// upper(trim(s)), add(1, 2), -n, n + 1
+	if !helpers.IsVariablePath(arg) {
+		val, err := v.exprEval.Eval(arg, v.exprEnv(ctx))
+		if err != nil {
+			return nil, fmt.Errorf("in argument '%s': %w", arg, err)
+		}
+		return val, nil
 	}
 
 	// Return as-is (literal string)
-	return arg
+	return arg, nil
 }
 
 // callFunc calls a function from the FuncMap with optional VueContext as first argument.
